@@ -100,6 +100,7 @@ func runRoutingScenario(o *hx.Out, r *hx.Rng, idx int) {
 		v := s
 		pks = append(pks, &v)
 	}
+	usedMarkers := map[string]bool{}
 	seq := 0
 	marker := func(kind string) string {
 		seq++
@@ -127,8 +128,11 @@ func runRoutingScenario(o *hx.Out, r *hx.Rng, idx int) {
 			}
 		}
 		// for a keyed operation issued WITH a partition key, use the partition key itself as record key now and then
+		// (a marker identifies ONE operation instance: a partition key that has already served as a record key --
+		// two of the scenario's partition keys can be equal -- is not used as a marker again)
 		keyFor := func(kind string) string {
-			if pk != nil && *pk != "" && r.Chance(20) {
+			if pk != nil && *pk != "" && !usedMarkers[*pk] && r.Chance(20) {
+				usedMarkers[*pk] = true
 				return *pk
 			}
 			return marker(kind)
@@ -201,8 +205,20 @@ func runRoutingScenario(o *hx.Out, r *hx.Rng, idx int) {
 		}
 		for _, op := range ops {
 			nops++
-			got := rec.shards(op.marker)
+			all := rec.shards(op.marker)
 			o.Count("routing:op:" + op.kind)
+			// the verdict is on the SET of shards this operation instance reached; a shard that received the same
+			// operation more than once is a duplicate delivery, reported under its own signature
+			var got []int64
+			for i, sh := range all {
+				if i == 0 || sh != all[i-1] {
+					got = append(got, sh)
+				}
+			}
+			if len(got) != len(all) {
+				o.Violation("routing:request-delivered-twice", fmt.Sprintf(
+					"shards=%d partition key %s: %s(%q) was received %d times, by shards %v", nshards, pkDesc, op.kind, op.marker, len(all), all))
+			}
 			switch {
 			case pk != nil:
 				want := route(*pk)
